@@ -408,15 +408,48 @@ pub struct Workload<'a> {
     pub count: u64,
     pub chunk: u64,
     pub body: Body<'a>,
+    /// every k-th case (idx % k == 0) runs on a brand-new thread, i.e. as the first thing that thread ever asks of
+    /// the library: state the library keeps per thread (caches, memos) is then empty, while on the long-lived
+    /// workers it carries whatever earlier cases left there. 0 = never.
+    pub fresh_every: u64,
 }
+
+/// Default share of cases run on a fresh thread (see Workload::fresh_every).
+pub const FRESH_EVERY_DEFAULT: u64 = 61;
+
+/// Runs one case, on a fresh thread if the workload asks for it.
+fn run_case(wl: &Workload, f: &(dyn Fn(&mut Rec, u64, &mut Rng) + Sync), rec: &mut Rec, idx: u64, rng: &mut Rng) {
+    if wl.fresh_every > 0 && idx % wl.fresh_every == 0 {
+        FRESH_THREAD_CASES.fetch_add(1, Ordering::Relaxed);
+        let r = std::thread::scope(|s| {
+            std::thread::Builder::new()
+                .stack_size(16 << 20)
+                .spawn_scoped(s, || f(rec, idx, rng))
+                .expect("spawn fresh thread")
+                .join()
+        });
+        if let Err(e) = r {
+            std::panic::resume_unwind(e);
+        }
+    } else {
+        f(rec, idx, rng);
+    }
+}
+
+pub static FRESH_THREAD_CASES: AtomicU64 = AtomicU64::new(0);
 
 impl<'a> Workload<'a> {
     pub fn cases(name: &'static str, count: u64, f: impl Fn(&mut Rec, u64, &mut Rng) + Sync + 'a) -> Self {
         let chunk = (count / 2048).clamp(1, 4096);
-        Workload { name, count, chunk, body: Body::Case(Box::new(f)) }
+        Workload { name, count, chunk, body: Body::Case(Box::new(f)), fresh_every: FRESH_EVERY_DEFAULT }
+    }
+    /// Sets the share of cases that run on a brand-new thread (1 = every case, 0 = none).
+    pub fn fresh(mut self, every: u64) -> Self {
+        self.fresh_every = every;
+        self
     }
     pub fn chunks(name: &'static str, count: u64, chunk: u64, f: impl Fn(&mut Rec, Range<u64>) + Sync + 'a) -> Self {
-        Workload { name, count, chunk: chunk.max(1), body: Body::Chunk(Box::new(f)) }
+        Workload { name, count, chunk: chunk.max(1), body: Body::Chunk(Box::new(f)), fresh_every: 0 }
     }
 }
 
@@ -445,7 +478,7 @@ pub fn run_workloads(ctx: &Ctx, workloads: Vec<Workload>) -> RunOutput {
             match &wl.body {
                 Body::Case(f) => {
                     let mut rng = Rng::for_case(ctx.seed, wl.name, *idx);
-                    f(&mut rec, *idx, &mut rng);
+                    run_case(wl, f.as_ref(), &mut rec, *idx, &mut rng);
                 }
                 Body::Chunk(f) => f(&mut rec, *idx..(*idx + 1)),
             }
@@ -491,7 +524,7 @@ pub fn run_workloads(ctx: &Ctx, workloads: Vec<Workload>) -> RunOutput {
                                         beats[w].2.store(true, Ordering::Relaxed);
                                         rec.cur_idx = idx;
                                         let mut rng = Rng::for_case(seed, wl.name, idx);
-                                        f(&mut rec, idx, &mut rng);
+                                        run_case(wl, f.as_ref(), &mut rec, idx, &mut rng);
                                     }
                                 }
                                 Body::Chunk(f) => {
@@ -593,6 +626,10 @@ pub fn result_json(ctx: &Ctx, meta: &PropMeta, out: RunOutput, wall_s: f64) -> V
         if n > 0 {
             bins.insert(format!("masked-route/{}(read-out disagrees with the model; another property's matter)", name), n);
         }
+    }
+    let fresh = FRESH_THREAD_CASES.load(Ordering::Relaxed);
+    if fresh > 0 {
+        bins.insert("cases-run-as-the-first-calls-of-a-fresh-thread".to_string(), fresh);
     }
     let skipped: u64 = bins.iter().filter(|(k, _)| k.starts_with("skipped/")).map(|(_, v)| *v).sum();
     let mut empty_bins: Vec<String> = meta
